@@ -12,7 +12,7 @@ import os
 import vlib
 
 BIG = 10000
-ALL_KINDS = ["cm", "roc", "reg", "mreg", "sil", "pear"]
+ALL_KINDS = ["cm", "roc", "rocu", "reg", "mreg", "sil", "pear"]
 
 # bounded design model (A)
 MODEL = {
@@ -28,14 +28,18 @@ BIG_R = {"quick": 8, "thorough": 60}
 
 # case generator (B): several runs of Gen_Metrics with different bounds (union of the cases)
 GEN_BASE = dict(CmLen=1, CmAlpha=1, CmBinLen=1, RocLen=2, RocDen=1, RegLen=1, RegNeg=0, RegHi=0, SilMinLen=4, SilLen=4,
-                SilPos=1, SilKs="{2}", PearRows=2, PearCols=2, PearHi=1)
+                SilPos=1, SilKs="{2}", PearRows=2, PearCols=2, PearHi=1, RegLongLens="{}", RocuLen=1, RocuRank=0)
 
 
 def gen_runs(tier):
     """(kinds, constants) per TLC run of Gen_Metrics; one run enumerates one bounded domain per kind."""
     q = tier == "quick"
     runs = [
-        (ALL_KINDS, dict(CmLen=3 if q else 4, CmAlpha=3, CmBinLen=5 if q else 6,
+        # "reglong" is a generator tag (the cases are ordinary "reg" cases of length 22..48)
+        (ALL_KINDS + ["reglong"], dict(RegLongLens="{22, 23, 24, 26, 28, 30, 32, 36, 40, 44, 47, 48}" if q else
+                                       "{22, 23, 24, 25, 26, 28, 30, 32, 34, 36, 38, 40, 42, 44, 46, 47, 48}",
+                         RocuLen=3, RocuRank=2 if q else 3,
+                         CmLen=3 if q else 4, CmAlpha=3, CmBinLen=5 if q else 6,
                          RocLen=3 if q else 4, RocDen=4,
                          RegLen=2, RegNeg=2, RegHi=2,
                          SilMinLen=4, SilLen=5 if q else 6, SilPos=3, SilKs="{2}",
@@ -47,7 +51,7 @@ def gen_runs(tier):
         (["pear"], dict(PearRows=4, PearCols=2, PearHi=1)),
     ]
     if not q:
-        runs.append((["pear", "sil"], dict(PearRows=4, PearCols=3, PearHi=1,
+        runs.append((["pear", "sil", "rocu"], dict(RocuLen=4, RocuRank=2, PearRows=4, PearCols=3, PearHi=1,
                                            SilMinLen=7, SilLen=7, SilPos=2, SilKs="{2, 3}")))
     return runs
 
@@ -93,8 +97,17 @@ def random_cases(ctx, scale=1.0):
         levels = r.sample(range(0, den + 1), min(den + 1, r.randint(2, 6))) + r.choice([[], [0], [den], [0, den]])
         num = [min(den, max(0, r.choice(levels) + (r.choice([0, 0, 1]) if t else 0))) for t in truth]
         out.append({"kind": "roc", "inp": {"num": num, "den": den, "truth": truth, "perm": rperm(r, n)}})
+    for _ in range(cnt(600)):        # scores that are neighbouring f32 values (ranks; see Gen_Metrics)
+        n = r.randint(4, 30)
+        truth = [r.randint(0, 1) for _ in range(n)]
+        if len(set(truth)) < 2:
+            truth[0], truth[1] = 0, 1
+        top = r.choice([2, 3, 6])
+        rank = [r.randint(0, top) for _ in range(n)]
+        out.append({"kind": "rocu", "inp": {"rank": rank, "base": r.choice(["half", "zero", "one"]), "truth": truth,
+                                            "perm": rperm(r, n)}})
     for _ in range(cnt(2000)):       # regression: offsets, non-negative (MSLE) and zero-free (MAPE) variants
-        n = r.randint(4, 40)
+        n = r.randint(4, 48)
         mode = r.choice(["any", "nonneg", "nozero", "shift"])
         lo, hi = {"any": (-9, 9), "nonneg": (0, 9), "nozero": (1, 9), "shift": (-5, 5)}[mode]
         b = [r.randint(lo, hi) for _ in range(n)]
@@ -161,6 +174,9 @@ def nontrivial(c):
         pos = {s for s, t in zip(i["num"], i["truth"]) if t == 1}
         neg = {s for s, t in zip(i["num"], i["truth"]) if t == 0}
         return bool(pos & neg) or 0 in i["num"] or i["den"] in i["num"]
+    if k == "rocu":  # an opposite-class pair of distinct scores closer than 2^-22
+        rk = i["rank"]
+        return any(0 < abs(a - b) <= 4 for a, ta in zip(rk, i["truth"]) for b, tb in zip(rk, i["truth"]) if ta != tb)
     if k in ("reg", "mreg"):
         return i["a"] != i["b"]
     return True
@@ -177,7 +193,7 @@ def build_cases(ctx):
     cases = []
     seen = set()
     for ks, over in gen_runs(ctx.tier):
-        ks = [k for k in ks if k in kinds]
+        ks = [k for k in ks if k in kinds or (k == "reglong" and "reg" in kinds)]
         if not ks:
             continue
         consts = dict(GEN_BASE)
@@ -233,13 +249,14 @@ def run_conformance(ctx, binp):
     traces = vlib.run_harness(ctx, binp, cases)
     for kind in ALL_KINDS:
         vlib.sample(ctx, [t for t in traces if t["kind"] == kind][:1], n=1)
-    vlib.validate_with_findings(ctx, "Trace_Metrics", traces, constants=TRACE_CONST, chunk=4000)
+    vlib.validate_with_findings(ctx, "Trace_Metrics", traces, constants=TRACE_CONST, chunk=4200)
     per_kind = {k: sum(1 for c in cases if c["kind"] == k) for k in ALL_KINDS}
     ctx.extra["cases_per_kind"] = per_kind
     ctx.extra["cases_enumerated_by_tlc"] = n_enum
     ctx.rule = ("cases enumerated by TLC (Gen_Metrics): all label-vector pairs over {0,1,2} up to length 3/4 and binary ones up to "
                 "5/6; all score vectors over k/4 (length<=3/4) and k/2 (length<=4/5) with every truth assignment containing both "
-                "classes; all lattice vector pairs over -2..2 (length<=2) and -1..1/2 (length 3); two-column targets; sorted "
+                "classes; ulp-neighbour scores (ranks 0..2/3 mapped to adjacent f32 values at 1/2, 0 and 1, length<=3/4); all lattice vector "
+                "pairs over -2..2 (length<=2) and -1..1/2 (length 3) and formula-built vectors of length 22..48; two-column targets; sorted "
                 "collinear positions 0..3 with every 2-/3-clustering into clusters of >=2 distinct points (length<=5/6); all "
                 "3x2, 3x3, 4x3 integer matrices with non-constant columns [quick/thorough]; thorough adds seeded random longer "
                 "inputs (length<=40). Each case is run through every calling form (arrays, views, datasets), label type "
